@@ -472,11 +472,15 @@ def real_op(op, rec, pre, i, ctx):
             return rs.ops.group_by(mk_fn(op['f'], op.get('variant')), pipeline=inner)
         tm = mk_fn(op['tm'])
         scale = ctx.get('timescale')
-        if scale == 'datetime':
+        if scale in ('datetime', 'datetime-days', 'datetime-ms'):
+            # the same behaviour with datetime / timedelta: one model time unit is a second,
+            # a day (durations with a `days` part), or 250 ms (sub-second durations)
             import datetime
+            unit = {'datetime': datetime.timedelta(seconds=1), 'datetime-days': datetime.timedelta(days=1),
+                    'datetime-ms': datetime.timedelta(milliseconds=250)}[scale]
             t0 = datetime.datetime(2020, 1, 1)
-            tmf = lambda x: t0 + datetime.timedelta(seconds=tm(x))
-            conv = lambda n: None if n < 0 else datetime.timedelta(seconds=n)
+            tmf = lambda x: t0 + unit * tm(x)
+            conv = lambda n: None if n < 0 else unit * n
         else:
             tmf = tm
             conv = lambda n: None if n < 0 else n
@@ -583,7 +587,7 @@ def run_mux(pipe, events, timescale=None, taps='all', dl_late=False, share_ops=F
         obs = src.pipe(rs.cast_as_mux_observable(), rs.state.with_store(store, rx.pipe(*ops)))
 
     def on_error(e):
-        rec.end = {'t': 'error', 'v': enc(e), 'o': rec.nxt()}
+        rec.end = {'t': 'error', 'v': enc(e), 'o': rec.nxt(), 'etype': type(e).__name__}
 
     def on_completed():
         rec.end = {'t': 'completed', 'v': NONE, 'o': rec.nxt()}
@@ -668,7 +672,7 @@ def run_multi(pipes, schedule, taps='all'):
 
     def mk_handlers(rec):
         def on_error(e):
-            rec.end = {'t': 'error', 'v': enc(e), 'o': rec.nxt()}
+            rec.end = {'t': 'error', 'v': enc(e), 'o': rec.nxt(), 'etype': type(e).__name__}
 
         def on_completed():
             rec.end = {'t': 'completed', 'v': NONE, 'o': rec.nxt()}
@@ -705,8 +709,11 @@ def run_multi(pipes, schedule, taps='all'):
     return out
 
 
-def run_src(pipe, items, complete=True, timescale=None, taps='all', root='store', dl_late=False):
-    """A plain source through with_memory_store (root key (0,))."""
+def run_src(pipe, items, complete=True, timescale=None, taps='all', root='store', dl_late=False,
+            source='subject'):
+    """A plain source through with_memory_store (root key (0,)).  source: 'subject' (hot: the
+    items are pushed after the subscription), 'sync' (a cold source that delivers everything
+    from inside its subscribe function), 'immediate' (rx.from_ on the ImmediateScheduler)."""
     import rx
     import rxsci as rs
     from rx.subject import Subject
@@ -714,6 +721,21 @@ def run_src(pipe, items, complete=True, timescale=None, taps='all', root='store'
     ctx = {'routers': [], 'timescale': timescale, 'taps': taps}
     ops = build(pipe, rec, [], ctx)
     src = Subject()
+    feed = src
+    if source == 'sync':
+        def _sub(observer, scheduler):
+            for v in items:
+                observer.on_next(dec(v))
+            if complete:
+                observer.on_completed()
+        feed = rx.create(_sub)
+    elif source == 'immediate':
+        from rx.scheduler import ImmediateScheduler
+        feed = rx.from_([dec(v) for v in items], scheduler=ImmediateScheduler())
+        if not complete:
+            feed = rx.concat(feed, rx.never())
+    src_ = src
+    src = feed
     if root == 'multiplex':     # no store: stateless pipelines only
         obs = src.pipe(rs.ops.multiplex(rx.pipe(*ops)))
     else:
@@ -723,27 +745,79 @@ def run_src(pipe, items, complete=True, timescale=None, taps='all', root='store'
         rec.out.append({'v': enc(i), 'o': rec.nxt()})
 
     def on_error(e):
-        rec.end = {'t': 'error', 'v': enc(e), 'o': rec.nxt()}
+        rec.end = {'t': 'error', 'v': enc(e), 'o': rec.nxt(), 'etype': type(e).__name__}
 
     def on_completed():
         rec.end = {'t': 'completed', 'v': NONE, 'o': rec.nxt()}
     with C.quiet_stdout():
         if not dl_late:
             _subscribe_routers(rec, ctx)
-        obs.subscribe(on_next=on_next, on_error=on_error, on_completed=on_completed)
+        try:
+            obs.subscribe(on_next=on_next, on_error=on_error, on_completed=on_completed)
+        except Exception as e:      # a synchronous source delivers inside subscribe()
+            if source == 'subject':
+                raise
+            rec.end = {'t': 'error', 'v': ['x', -1], 'o': rec.nxt(), 'raised': type(e).__name__}
         if dl_late:
             _subscribe_routers(rec, ctx)
         try:
-            for v in items:
-                if rec.end['t'] != 'open':
-                    break
-                src.on_next(dec(v))
-            if complete and rec.end['t'] == 'open':
-                src.on_completed()
+            if source == 'subject':
+                for v in items:
+                    if rec.end['t'] != 'open':
+                        break
+                    src_.on_next(dec(v))
+                if complete and rec.end['t'] == 'open':
+                    src_.on_completed()
         except Exception as e:
             rec.end = {'t': 'error', 'v': ['x', -1], 'o': rec.nxt(),
                        'raised': type(e).__name__}
     return _finish(rec, pipe, 'src', {'src': items})
+
+
+def run_plain_after_abort(pipe, items, abort_at):
+    """ONE piped plain observable on a cold source, subscribed twice: the first subscriber
+    raises from its on_next at its abort_at-th item (the exception escapes the subscription,
+    the caller catches it), the second subscription is the one that is judged.
+    Returns a run_plain-like result of the second subscription."""
+    import rx
+    ops = build(pipe, None, [], {'routers': []})
+    src = rx.from_([dec(v) for v in items])
+    obs = src.pipe(*ops) if ops else src
+    state = {'step': len(items), 'end': 'open', 'endstep': 0, 'err': NONE}
+    out = []
+    seen = [0]
+
+    class _Abort(Exception):
+        pass
+
+    def boom(_):
+        seen[0] += 1
+        if seen[0] >= abort_at:
+            raise _Abort()
+
+    def on_error(e):
+        state['end'] = 'error'
+        state['err'] = enc(e)
+        state['errtype'] = type(e).__name__
+        state['endstep'] = len(items)
+
+    def on_completed():
+        state['end'] = 'completed'
+        state['endstep'] = len(items)
+    with C.quiet_stdout():
+        try:
+            obs.subscribe(on_next=boom, on_error=lambda e: None)
+        except Exception:
+            pass
+        try:
+            obs.subscribe(on_next=lambda i: out.append({'v': enc(i), 's': len(items)}),
+                          on_error=on_error, on_completed=on_completed)
+        except Exception as e:
+            state['end'] = 'error'
+            state['errtype'] = type(e).__name__
+    state['out'] = out
+    state['aborted_first'] = seen[0] >= abort_at
+    return state
 
 
 def run_plain_shared(pipe, streams, schedule, dispose_first_after=None):
@@ -864,7 +938,7 @@ def run_plain_late_subscriber(pipe, items, k, dispose_first_at=None):
     return res
 
 
-def run_plain(pipe, items, complete=True, share_ops=False):
+def run_plain(pipe, items, complete=True, share_ops=False, feedback=False):
     """The plain (non multiplexed) code path of the same pipeline: items of one group
     as an ordinary observable.  Returns outputs with the number of source items pushed
     when each was emitted, and how the stream ended."""
@@ -875,8 +949,14 @@ def run_plain(pipe, items, complete=True, share_ops=False):
     state = {'step': 0, 'end': 'open', 'endstep': 0, 'err': NONE}
     out = []
 
+    pending = list(items)
+
     def on_next(i):
         out.append({'v': enc(i), 's': state['step']})
+        if feedback and pending and state['end'] == 'open':
+            # re-entrant delivery: the next item is pushed from inside on_next
+            state['step'] += 1
+            src.on_next(dec(pending.pop(0)))
 
     def on_error(e):
         state['end'] = 'error'
@@ -891,7 +971,8 @@ def run_plain(pipe, items, complete=True, share_ops=False):
         obs = src.pipe(*ops) if ops else src
         obs.subscribe(on_next=on_next, on_error=on_error, on_completed=on_completed)
         try:
-            for v in items:
+            while pending:
+                v = pending.pop(0)
                 state['step'] += 1
                 src.on_next(dec(v))
             if complete:
